@@ -196,7 +196,10 @@ let sc_sorter c =
   let pool = if pooled then Wr.c_pool_init nthreads else 0n in
   let pid = if pooled then Some (create c (KPool (n_of_int nthreads))) else None in
   let fail_at = if rint c.st 5 = 0 then rrange c.st 1 6 else 0 in
-  let mc = Mg.c_merge_clos_new 1 fail_at in
+  (* merge function: concatenation, or (every third case) one that returns one of its operands - the larger / the smaller
+     by (length, bytes) - so that merged values are not longer than what they replace *)
+  let mkind = (match rint c.st 6 with 0 -> 3 | 1 -> 4 | _ -> 1) in
+  let mc = Mg.c_merge_clos_new mkind fail_at in
   let maxmem = (match rint c.st 3 with 0 -> 1 | 1 -> rrange c.st 100 2000 | _ -> 100000000) in
   let s = So.c_sorter_init maxmem c.spill mc pool in
   let sid = create c (KSorter (pooled, N0)) in
@@ -211,7 +214,7 @@ let sc_sorter c =
     let k = Printf.sprintf "k%03d" (rint c.st 40) in
     let k = if maxmem > 100000 && rint c.st 3 = 0 then k ^ String.make (rrange c.st 257 2000) 'K' else k in
     let before = So.c_mkstemp_count () in
-    if not (So.c_sorter_add s k (Printf.sprintf "a%d" i)) then failed := true;
+    if not (So.c_sorter_add s k (if mkind = 1 then Printf.sprintf "a%d" i else String.make (rint c.st 20) (Char.chr (97 + i mod 26)))) then failed := true;
     if opm then rop c (RSorterAdd (mid 6400, (if So.c_mkstemp_count () > before then Some [ CWrite ] else None), false))
   done;
   let mode = rint c.st 4 in
